@@ -72,6 +72,28 @@ func (s *State) Key() string {
 	return s.key
 }
 
+// SameIgnoringTmp reports whether two states are equal up to files named *.tmp inside .goit
+// (left behind by a failed atomic write; no loader ever looks at them).
+func SameIgnoringTmp(a, b *State) bool {
+	strip := func(s *State) *State {
+		n := NewState()
+		for p, d := range s.Files {
+			if strings.HasPrefix(p, "root/.goit/") && strings.HasSuffix(p, ".tmp") {
+				continue
+			}
+			n.Files[p] = d
+		}
+		for d := range s.Dirs {
+			n.Dirs[d] = true
+		}
+		return n
+	}
+	if a.Key() == b.Key() {
+		return true
+	}
+	return strip(a).Key() == strip(b).Key()
+}
+
 // canonConfig sorts sections and keys of a config file written by Goit. Anything
 // that does not look like such a file is returned unchanged.
 func canonConfig(data []byte) string {
